@@ -269,7 +269,10 @@ macro_rules! mac_family {
                         let fails = k == 3 && sp.get(&format!("creator-fails{}", i)) == Some(1);
                         let mut saw = vec![];
                         if !has_payload {
-                            let r = std::panic::catch_unwind(std::panic::AssertUnwindSafe(|| { let _ = b.create_tag(AAD, |d| d.to_vec()); }));
+                            let r = std::panic::catch_unwind(std::panic::AssertUnwindSafe(|| {
+                                if k == 2 { let _ = b.create_tag(AAD, |d| d.to_vec()); }
+                                else { let _ = b.try_create_tag(AAD, |d| -> Result<Vec<u8>, u64> { Ok(d.to_vec()) }); }
+                            }));
                             return if r.is_err() { "MATCH refused".into() } else { "MISMATCH create_tag without payload did not panic".into() };
                         }
                         if k == 2 {
@@ -376,7 +379,13 @@ fn recipient(sp: &Spec) -> String {
                 let fails = k == 3 && sp.get(&format!("creator-fails{}", i)) == Some(1);
                 let mut saw = vec![];
                 if rctx < 2 {
-                    let r = std::panic::catch_unwind(std::panic::AssertUnwindSafe(|| { let _ = b.create_ciphertext(ctxs[rctx], &pt, AAD, |_p, d| d.to_vec()); }));
+                    let r = std::panic::catch_unwind(std::panic::AssertUnwindSafe(|| {
+                        if k == 2 {
+                            let _ = b.create_ciphertext(ctxs[rctx], &pt, AAD, |_p, d| d.to_vec());
+                        } else {
+                            let _ = b.try_create_ciphertext(ctxs[rctx], &pt, AAD, |_p, d| -> Result<Vec<u8>, u64> { if fails { Err(77) } else { Ok(d.to_vec()) } });
+                        }
+                    }));
                     return if r.is_err() { "MATCH refused".into() } else { "MISMATCH non-recipient context accepted".into() };
                 }
                 if k == 2 {
